@@ -428,6 +428,29 @@ def rpure_refused_insert_changes_nothing(ctx):
     c05.r6_refused_insert_is_pure(ctx)
 
 
+
+def r10_front_end_hand_over_reports_a_dead_back_end(ctx):
+    """`every later operation completes with an error that carries the disconnect cause`: the front end learns that the
+    background tasks are gone from the failure of handing its message over. In async_client::rpc_service every hand-over is
+    the waiting `Sender::send` whose error leaves the function (`?`); a non-waiting try_send whose `Closed` outcome is not
+    an error makes a notification on a dead client return Ok(())."""
+    from .common import awaited_error_leaves_function
+    F, R = ctx.F, ctx.R
+    n = 0
+    for b in F.real_bodies():
+        if b.crate != CORE or is_test_body(b) or not re.search(r"^<?jsonrpsee_core::client::async_client::rpc_service::", b.path):
+            continue
+        for c in b.calls_to(r"mpsc::(bounded::)?Sender::<.*>::(try_send|try_reserve\w*|blocking_send)$"):
+            R.fn(b)
+            R.bad("C09.R10", "%s:nonwaiting-hand-over" % fkey(b), "%s hands a front-end message over with %s: its `closed` outcome has to be turned into the disconnect error by hand, which the waiting send does by construction" % (short(b.path), (c.name() or "").split("::")[-1]), where(c))
+        for c in b.calls_to(r"mpsc::(bounded::)?Sender::<.*>::send$"):
+            n += 1
+            R.fn(b)
+            found, ok = awaited_error_leaves_function(b, c)
+            R.check(ok, "C09.R10", "%s:hand-over-error-propagates@%d" % (fkey(b), sorted(x.bb for x in b.calls_to(r"Sender::<.*>::send$")).index(c.bb)), "a failed hand-over to the background task is an error for the caller", "%s does not turn a failed hand-over to the background task into an error: an operation on a disconnected client reports success" % short(b.path), where(c))
+    R.floor("C09.R10", n, 4, "hand-overs from the front end to the background task")
+
+
 def rsel_shutdown_is_a_select_branch(ctx):
     """the background tasks notice the other task's end while they wait"""
     from .common import shutdown_is_a_select_branch
@@ -441,7 +464,7 @@ def rloop_client_tasks_keep_polling(ctx):
     client_loops_suspend_only_where_vetted(ctx, "C09.LOOP")
 
 
-RULES = [rloop_client_tasks_keep_polling, rbuilder_client_settings_survive, rpure_refused_insert_changes_nothing, rsel_shutdown_is_a_select_branch, r9_taken_callers_are_answered, r1_cause_before_close, r2_no_unchecked_arith_on_peer_numbers, r3_errors_reach_watcher, r4_frontend_mapping, r5_read_error, r6_no_relock, r7_manager_not_cleared_wholesale, r8_no_panicky_text_surgery, rcancel_receive_is_cancel_safe]
+RULES = [r10_front_end_hand_over_reports_a_dead_back_end, rloop_client_tasks_keep_polling, rbuilder_client_settings_survive, rpure_refused_insert_changes_nothing, rsel_shutdown_is_a_select_branch, r9_taken_callers_are_answered, r1_cause_before_close, r2_no_unchecked_arith_on_peer_numbers, r3_errors_reach_watcher, r4_frontend_mapping, r5_read_error, r6_no_relock, r7_manager_not_cleared_wholesale, r8_no_panicky_text_surgery, rcancel_receive_is_cancel_safe]
 
 LEVEL_TEXT = (
     "Structural necessary conditions of clean failure handling decided from the type-checked program: the happens-before "
